@@ -546,10 +546,239 @@ pub fn run(tier: Tier, started: Instant) -> Vec<Part> {
     v
 }
 
+// ------------------------------------------------------------------ round targets on the real loop (C17)
+
+#[derive(Clone, Copy, Debug, PartialEq, Eq)]
+enum SeedKind {
+    None,
+    Unknown,
+    Ready,
+    NotReady,
+    Dead,
+}
+
+#[derive(Clone, Copy, Debug)]
+struct RoundCfg {
+    predicate: bool,
+    ready: usize,
+    not_ready: usize,
+    dead: usize,
+    seed: SeedKind,
+}
+
+fn rt_member(kind: usize, i: usize) -> Id {
+    let names = ["ready", "notready", "dead"];
+    Id::v4(&format!("{}{}", names[kind], i), 1, 11_000 + (kind as u16) * 100 + i as u16)
+}
+
+fn round_cfg_json(c: &RoundCfg) -> Value {
+    json!({"engine":"server","kind":"round-targets","predicate":c.predicate,"ready":c.ready,"not_ready":c.not_ready,"dead":c.dead,"seed":format!("{:?}", c.seed)})
+}
+
+/// Is the list of SYN destinations of one round explainable as: at most three distinct peers from
+/// the pool, at most one from the dead set, at most one from the seed set?
+fn decomposable(targets: &[SocketAddr], pool: &std::collections::BTreeSet<SocketAddr>, dead: &std::collections::BTreeSet<SocketAddr>, seeds: &std::collections::BTreeSet<SocketAddr>) -> bool {
+    let n = targets.len();
+    // index n = "slot not used"
+    for d in 0..=n {
+        if d < n && !dead.contains(&targets[d]) {
+            continue;
+        }
+        for sd in 0..=n {
+            if sd < n && (sd == d || !seeds.contains(&targets[sd])) {
+                continue;
+            }
+            let rest: Vec<&SocketAddr> = targets.iter().enumerate().filter(|(i, _)| *i != d && *i != sd).map(|(_, a)| a).collect();
+            let distinct: std::collections::BTreeSet<&&SocketAddr> = rest.iter().collect();
+            if rest.len() <= 3 && distinct.len() == rest.len() && rest.iter().all(|a| pool.contains(a)) {
+                return true;
+            }
+        }
+    }
+    false
+}
+
+async fn round_targets_case(c: RoundCfg, rounds: usize, t: &mut Tally) -> Result<(), V> {
+    use std::collections::BTreeSet;
+    let shared = Arc::new(Shared::default());
+    let transport = ScriptedTransport { shared: shared.clone() };
+    let ready: Vec<Id> = (0..c.ready).map(|i| rt_member(0, i)).collect();
+    let not_ready: Vec<Id> = (0..c.not_ready).map(|i| rt_member(1, i)).collect();
+    let dead: Vec<Id> = (0..c.dead).map(|i| rt_member(2, i)).collect();
+    let seed: Option<SocketAddr> = match c.seed {
+        SeedKind::None => None,
+        SeedKind::Unknown => Some(seed_addr()),
+        SeedKind::Ready => ready.first().map(|i| i.addr),
+        SeedKind::NotReady => not_ready.first().map(|i| i.addr),
+        SeedKind::Dead => dead.first().map(|i| i.addr),
+    };
+    let config = ChitchatConfig {
+        chitchat_id: real::to_real_id(&server_id()),
+        cluster_id: "c".into(),
+        gossip_interval: GOSSIP_INTERVAL,
+        listen_addr: server_id().addr,
+        seed_nodes: seed.iter().map(|a| a.to_string()).collect(),
+        failure_detector_config: FailureDetectorConfig::default(),
+        marked_for_deletion_grace_period: Duration::from_secs(3600),
+        catchup_callback: None,
+        extra_liveness_predicate: if c.predicate { Some(Box::new(|ns| ns.get("READY") == Some("true"))) } else { None },
+    };
+    let handle = spawn_chitchat(config, vec![("k".into(), "v".into())], &transport).await.expect("spawn");
+    let mut d = Driver { shared: shared.clone(), handle: Some(handle), ended: Ended::No, peer_hb: 0 };
+    d.settle().await;
+    let src = SocketAddr::from(([127, 0, 0, 1], 10_900));
+    // warm-up: four heartbeats one second apart for the live members, a single one for the dead
+    for hb in 1..=4u64 {
+        let mut digest: Vec<DigestEntry> = ready.iter().chain(not_ready.iter()).map(|id| DigestEntry { id: id.clone(), heartbeat: hb, gc: 0, mv: 0 }).collect();
+        if hb == 1 {
+            digest.extend(dead.iter().map(|id| DigestEntry { id: id.clone(), heartbeat: 1, gc: 0, mv: 0 }));
+        }
+        d.push(RecvItem::Msg(src, real::build_real(&Msg::Syn { digest, cluster_id: "c".into() }).unwrap()));
+        d.settle().await;
+        if hb == 1 {
+            for id in &ready {
+                let ops = vec![Op::Node { id: id.clone(), gc: 0, from: 0 }, Op::Kv { key: "READY".into(), value: "true".into(), version: 1, status: 0 }];
+                d.push(RecvItem::Msg(src, real::build_real(&Msg::Ack { ops }).unwrap()));
+            }
+            d.settle().await;
+        }
+        tokio::time::advance(GOSSIP_INTERVAL).await;
+        d.settle().await;
+    }
+    for round in 0..rounds {
+        // the sets the round is entitled to use
+        let (peers, live, deadset, watcher): (BTreeSet<SocketAddr>, BTreeSet<SocketAddr>, BTreeSet<SocketAddr>, usize) = {
+            let h = d.handle.as_ref().unwrap();
+            let cc = h.chitchat();
+            let Some(g) = bounded(cc.lock()).await else { return Err(("state lock not granted".into(), "lock-stalled".into())) };
+            let me = g.self_chitchat_id().clone();
+            let peers = g.node_states().keys().filter(|i| **i != me).map(|i| i.gossip_advertise_addr).collect();
+            let live = g.live_nodes().filter(|i| **i != me).map(|i| i.gossip_advertise_addr).collect();
+            let deadset = g.dead_nodes().map(|i| i.gossip_advertise_addr).collect();
+            let w = g.live_nodes_watcher().borrow().keys().filter(|i| **i != me).count();
+            (peers, live, deadset, w)
+        };
+        if round == 0 {
+            // the set-up must have produced the intended membership, otherwise the case is vacuous
+            if live.len() != c.ready + c.not_ready || deadset.len() != c.dead {
+                t.inc("setup_mismatch");
+                return Ok(());
+            }
+            let expect_w = if c.predicate { c.ready } else { c.ready + c.not_ready };
+            if watcher != expect_w {
+                t.inc("setup_mismatch");
+                return Ok(());
+            }
+            if c.predicate && c.not_ready > 0 {
+                t.inc("cases_with_live_peers_hidden_by_the_predicate");
+            }
+        }
+        let seeds: BTreeSet<SocketAddr> = seed.iter().copied().collect();
+        let before = d.sent_len();
+        tokio::time::advance(GOSSIP_INTERVAL).await;
+        d.settle().await;
+        let targets: Vec<SocketAddr> = shared.sent.lock().unwrap()[before..].iter().filter(|(_, k, _)| *k == "syn").map(|(a, _, _)| *a).collect();
+        t.inc("rounds_observed");
+        let pool = if live.is_empty() { &peers } else { &live };
+        if !decomposable(&targets, pool, &deadset, &seeds) {
+            let dead_hit = targets.iter().filter(|a| deadset.contains(a)).count();
+            return Err((
+                format!("round {} contacted {:?}: not (at most 3 distinct of the {} {} peers) + (at most 1 of the {} dead) + (at most 1 seed); {} dead peers contacted", round + 1, targets.iter().map(|a| a.port()).collect::<Vec<_>>(), pool.len(), if live.is_empty() { "known" } else { "live" }, deadset.len(), dead_hit),
+                "round-targets-outside-the-allowed-sets".into(),
+            ));
+        }
+        if live.is_empty() && !seeds.is_empty() && !targets.iter().any(|a| seeds.contains(a)) {
+            return Err(("no live peer is known and a seed is configured, yet the round contacted no seed".into(), "round-skipped-the-seed".into()));
+        }
+        if deadset.len() > live.len() && !targets.iter().any(|a| deadset.contains(a)) {
+            return Err((format!("{} dead peers outnumber {} live ones, yet the round contacted no dead peer", deadset.len(), live.len()), "round-skipped-the-dead".into()));
+        }
+        if !live.is_empty() && targets.iter().filter(|a| live.contains(a)).count() < live.len().min(3) {
+            return Err((format!("{} live peers are known but the round contacted only {} of them", live.len(), targets.iter().filter(|a| live.contains(a)).count()), "round-skipped-live-peers".into()));
+        }
+    }
+    if let Some(h) = d.handle.take() {
+        h.abort();
+    }
+    tokio::task::yield_now().await;
+    Ok(())
+}
+
+/// C17 on the real server loop: which sets the round hands to the selection function.
+pub fn round_targets(tier: Tier) -> Part {
+    let mut part = Part::new("server/round-targets");
+    let rounds = tier.pick(3usize, 12usize);
+    part.rule = format!("the real gossip server over the scripted transport, with and without an extra liveness predicate (READY == true); membership built through real messages: 0..2 live peers satisfying the predicate, 0..2 live peers not satisfying it, 0..{} dead peers (one heartbeat only); seed: none / an unknown address / a ready peer / a not-ready peer / a dead peer; {rounds} consecutive rounds observed per configuration; oracle, evaluated on the SYN destinations of each round against Chitchat::live_nodes() / dead_nodes() / known members read under the lock just before the round: the destinations split into at most 3 distinct peers of the pool (live peers, or all known peers when none is live) + at most one dead peer + at most one seed; a seed is contacted when no live peer is known; a dead peer is contacted when dead outnumber live; min(3, live) live peers are contacted. The server's own random generator is not scripted here (the `select` engine enumerates the generator's answers on the selection function itself): the oracle holds for every draw, and a wrong pool is exposed deterministically by the configurations in which it forces a destination outside the allowed sets; non-trivial = configurations with live peers hidden by the predicate", tier.pick(4, 5));
+    let dmax = tier.pick(4usize, 5usize);
+    let mut cfgs = vec![];
+    for predicate in [false, true] {
+        for ready in 0..=2 {
+            for not_ready in 0..=2 {
+                for dead in 0..=dmax {
+                    for seed in [SeedKind::None, SeedKind::Unknown, SeedKind::Ready, SeedKind::NotReady, SeedKind::Dead] {
+                        let exists = match seed {
+                            SeedKind::Ready => ready > 0,
+                            SeedKind::NotReady => not_ready > 0,
+                            SeedKind::Dead => dead > 0,
+                            _ => true,
+                        };
+                        if exists {
+                            cfgs.push(RoundCfg { predicate, ready, not_ready, dead, seed });
+                        }
+                    }
+                }
+            }
+        }
+    }
+    part.bounds = json!({"configurations": cfgs.len(), "rounds_per_configuration": rounds});
+    let results: Vec<(Tally, Option<(V, RoundCfg)>)> = cfgs
+        .par_iter()
+        .map(|c| {
+            let mut t = Tally::default();
+            t.inc("configurations");
+            let c2 = *c;
+            let mut local = Tally::default();
+            let r = guarded(|| crate::clock::block_on(async { round_targets_case(c2, rounds, &mut local).await }));
+            t.merge(&local);
+            match r {
+                Ok(Ok(())) => (t, None),
+                Ok(Err(v)) => (t, Some((v, *c))),
+                Err(p) => (t, Some(((format!("driver panicked: {p}"), "machinery-panic".into()), *c))),
+            }
+        })
+        .collect();
+    let mut viols = vec![];
+    for (t, v) in results {
+        part.tally.merge(&t);
+        if let Some(x) = v {
+            viols.push(x);
+        }
+    }
+    viols.sort_by_key(|(_, c)| c.ready + c.not_ready + c.dead);
+    for ((what, sig), c) in viols {
+        if sig == "machinery-panic" {
+            part.notes.push(format!("MACHINERY: {what}"));
+            continue;
+        }
+        part.violation("C17", format!("{what} [predicate {}, {} ready, {} not ready, {} dead, seed {:?}]", c.predicate, c.ready, c.not_ready, c.dead, c.seed), sig, round_cfg_json(&c));
+    }
+    part.states = part.tally.get("configurations");
+    part.transitions = part.tally.get("rounds_observed");
+    part.executions = part.tally.get("configurations");
+    part.distinct_nontrivial = part.tally.get("cases_with_live_peers_hidden_by_the_predicate");
+    if part.tally.get("setup_mismatch") > 0 {
+        part.notes.push(format!("MACHINERY: {} configurations did not produce the intended membership", part.tally.get("setup_mismatch")));
+    }
+    part.sample(json!({"predicate": true, "ready": 0, "not_ready": 1, "dead": 3, "seed": "Unknown"}));
+    part.require("cases_with_live_peers_hidden_by_the_predicate");
+    part.require("rounds_observed");
+    part
+}
+
 /// The round-level clause of C17 (every round contacts the seed when it has to, whatever happened to
 /// the earlier sends of the round) on the real server loop: same scripts, only that oracle reported.
 pub fn run_c17(tier: Tier, started: Instant) -> Vec<Part> {
-    vec![scripts("C17", tier.pick(4usize, 6usize), tier, started)]
+    vec![scripts("C17", tier.pick(4usize, 6usize), tier, started), round_targets(tier)]
 }
 
 fn scripts(property: &'static str, depth: usize, tier: Tier, started: Instant) -> Part {
